@@ -54,6 +54,22 @@ def io_graph(rng, depth=0):
         others = [n for n, rec in g["nodes"] if rec["type"] not in ("Input",)]
         if ins and others:
             g["edges"].append([rng.choice(others), rng.choice(ins)])
+    elif r < 0.7:
+        # an inference that fails part-way (nested graph as a successor: NotImplementedError) next to an
+        # Output whose own shape is erased, so that the Output may be re-typed before the error is raised
+        outs = [n for n, rec in g["nodes"] if rec["type"] == "Output"]
+        if outs:
+            o = rng.choice(outs)
+            for n, rec in g["nodes"]:
+                if n == o:
+                    rec["kwargs"] = [["output_type", None]]
+            srcs = [e[0] for e in g["edges"] if e[1] == o]
+            if srcs:
+                sub = {"type": "NIRGraph", "meta": None, "edges": [["i", "o"]], "nodes": [
+                    ["i", {"type": "Input", "kwargs": [["input_type", gen.shape_arg(rng, [2], "input")]]}],
+                    ["o", {"type": "Output", "kwargs": [["output_type", gen.shape_arg(rng, [2], "output")]]}]]}
+                g["nodes"].append(["zsub", sub])
+                g["edges"].insert(rng.randrange(0, len(g["edges"]) + 1), [rng.choice(srcs), "zsub"])
     if depth < 2 and rng.random() < 0.25:
         sub = io_graph(rng, depth + 1)
         g["nodes"].append(["sub", sub])
